@@ -43,4 +43,17 @@ def mapWhile {α β : Type} (f : α → Option β) : List α → List β
 /-- `TryInto<usize>` for the twelve primitive integer types (value as an `Int`, 64-bit `usize`) -/
 def tryIntoUsize (v : Int) : Option Nat := if 0 ≤ v ∧ v < 2 ^ 64 then some v.toNat else none
 
+/-- `self[i].f(keys)` for a child function that returns a result and the updated child (`&mut self`): the result and
+the container with that child replaced; an index out of bounds is the panic of `Index::index` -/
+def applyAt {C K R : Type} (child : C → K → R × C) (self : List C) (i : Nat) (keys : K) : P (R × List C) :=
+  match self[i]? with
+  | some c => let rc := child c keys; .val (rc.1, self.set i rc.2)
+  | none => .panic "index out of bounds"
+
+/-- `self[i].f(keys)` for a child function on `&self` -/
+def applyAtR {C K R : Type} (child : C → K → R) (self : List C) (i : Nat) (keys : K) : P R :=
+  match self[i]? with
+  | some c => .val (child c keys)
+  | none => .panic "index out of bounds"
+
 end MiniconfVerif.Gen
